@@ -215,8 +215,16 @@ CODEC_ASSUME = [
 def codec_family(ctx, n_quick, n_thorough, mc_cfgs_quick=("default",), extra_cov=None, rnd_cfg="mix"):
     ctx.build()
     cfgs = list(mc_cfgs_quick) if ctx.quick else ["default", "pt", "pa", "both"]
-    cases, st = fam_codec.mc_codec(ctx.work, cfgs, True, sweep="SweepQuick" if ctx.quick else "SweepThorough")
-    ctx.add_mc(st)
+    if ctx.quick:
+        cases, st = fam_codec.mc_codec(ctx.work, cfgs, True, sweep="SweepQuick")
+        ctx.add_mc(st)
+    else:       # the long length sweep in the default configuration, the boundary sweep in the other three
+        cases, st = fam_codec.mc_codec(ctx.work, ["default"], True, sweep="SweepThorough")
+        ctx.add_mc(st)
+        c2, st2 = fam_codec.mc_codec(ctx.work, ["pt", "pa", "both"], True, sweep="SweepQuick")
+        ctx.add_mc(st2)
+        cases += c2
+        st = {"distinct": st["distinct"] + st2["distinct"]}
     log("design check MCCodec: %d states, %d cases emitted" % (st["distinct"], len(cases)))
     p1 = os.path.join(ctx.work, "mc_cases.ndjson")
     fam_codec.write_cases(cases, p1, 0)
@@ -236,23 +244,23 @@ def codec_family(ctx, n_quick, n_thorough, mc_cfgs_quick=("default",), extra_cov
 
 
 def plan_C01(ctx):
-    return codec_family(ctx, 6000, 40000)
+    return codec_family(ctx, 6000, 25000)
 
 
 def plan_C02(ctx):
-    return codec_family(ctx, 6000, 40000)
+    return codec_family(ctx, 6000, 25000)
 
 
 def plan_C05(ctx):
-    return codec_family(ctx, 6000, 40000)
+    return codec_family(ctx, 6000, 25000)
 
 
 def plan_C09(ctx):
-    return codec_family(ctx, 6000, 40000)
+    return codec_family(ctx, 6000, 25000)
 
 
 def plan_C13(ctx):
-    return codec_family(ctx, 6000, 40000)
+    return codec_family(ctx, 6000, 25000)
 
 
 def plan_C16(ctx):
@@ -321,7 +329,7 @@ def plan_C16(ctx):
 
 
 def plan_C14(ctx):
-    return codec_family(ctx, 6000, 40000)
+    return codec_family(ctx, 6000, 25000)
 
 
 def decode_family(ctx, kinds, n_quick, n_thorough, with_codec_sessions=False):
@@ -1009,7 +1017,7 @@ def plan_C18(ctx):
 
 
 def plan_C12(ctx):
-    return codec_family(ctx, 6000, 40000, mc_cfgs_quick=("both", "pa"), rnd_cfg="mix")
+    return codec_family(ctx, 6000, 25000, mc_cfgs_quick=("both", "pa"), rnd_cfg="mix")
 
 
 PLANS = {"C07": plan_C07, "C20": plan_C20, "C19": plan_C19, "C17": plan_C17, "C16": plan_C16, "C13": plan_C13, "C15": plan_C15, "C08": plan_C08, "C04": plan_C04, "C06": plan_C06, "C11": plan_C11, "C03": plan_C03, "C10": plan_C10, "C18": plan_C18, "C12": plan_C12, "C01": plan_C01, "C02": plan_C02, "C05": plan_C05, "C09": plan_C09, "C14": plan_C14}
